@@ -84,7 +84,16 @@ def _pf():
     return pf
 
 
+_ITYPE = [None]
+
+
 def _new(M, P, win):
+    it = _ITYPE[0]
+    if it:
+        # the two integer settings as numpy fixed-width integers (sub-box), whenever the value fits the type
+        info = np.iinfo(it)
+        M = np.dtype(it).type(M) if info.min <= M <= info.max else M
+        P = np.dtype(it).type(P) if info.min <= P <= info.max else P
     return _pf().PolyphaseFilterbank(num_taps=M, num_branches=P, window_fn=R.window_arg(win))
 
 
@@ -154,6 +163,7 @@ class Cmp(object):
 
 # ------------------------------------------------------------------ window
 def case_window(c):
+    _ITYPE[0] = c.get('itype')
     M, P, win = c['M'], c['P'], c['win']
     viol = []
 
@@ -251,6 +261,7 @@ def _chunks(comp):
 
 
 def case_stream(c):
+    _ITYPE[0] = c.get('itype')
     M, P, win, kind, cw, seed = c['M'], c['P'], c['win'], c['kind'], c['c'], c['seed']
     N = M * P
     K = P // 2
@@ -393,6 +404,7 @@ def _interleavings(na, nb):
 
 
 def case_pair(c):
+    _ITYPE[0] = c.get('itype')
     seed = c['seed']
     viol = []
     seen = set()
@@ -473,6 +485,7 @@ def case_pair(c):
 
 # ------------------------------------------------------------------ linearity, complex split, get_pfb_voltages
 def case_algebra(c):
+    _ITYPE[0] = c.get('itype')
     M, P, win, cw, seed = c['M'], c['P'], c['win'], c['c'], c['seed']
     N, K = M * P, P // 2
     pf = _pf()
@@ -604,6 +617,9 @@ def run(ctx):
         for cw in ((2, 3, 4) if P < 1024 else (2, 3)):
             for kind in ('noise_tone', 'complex', 'impulse'):
                 stream.append(dict(M=M, P=P, win=win, kind=kind, pos=P + 1, c=cw, seed=seed))
+    # num_taps / num_branches handed over as numpy fixed-width integers: sub-box (noise+tone input, 3 windows)
+    stream += [dict(sc, itype=it) for sc in stream if sc['kind'] == 'noise_tone' and sc['c'] == 3 and sc['win'] == cfgs[0][2]
+               for it in ('uint8', 'int8', 'uint16', 'int32', 'int64')]
     ctx.pmap(case_stream, stream, chunk=8)
 
     # two objects: every unordered pair of (M, P) (incl. the same (M, P)); windows and data differ between the objects
